@@ -27,12 +27,7 @@ A = 'circus.arbiter:Arbiter.'
 
 
 def check(run, ctx):
-    r1(run, ctx)
-    r2(run, ctx)
-    r3(run, ctx)
-    r4(run, ctx)
-    r5(run, ctx)
-    r6(run, ctx)
+    run.each(ctx, [r1, r2, r3, r4, r5, r6])
 
 
 def _yielded_call_nodes(ctx, f, target_keys):
